@@ -25,7 +25,15 @@ theorem c20_mutual_exclusion {S : Sys} {s : State} (h : Reachable S s) (q : Nat)
 any, completed (`aview`) — is reached by the atomic reference system, in which every locked
 closure is ONE action, by the same actions in the same order minus the actions inside
 sections (`ls'` is a sublist of `ls`).  So the shared map always equals the result of running
-the cycles one after another in the order in which the mutex was acquired. -/
+the cycles one after another in the order in which the mutex was acquired.
+
+The locked closure is ONE critical section regardless of anything the cycle does inside it — in
+particular regardless of whether a debugger is attached to the resource, is paused, has
+breakpoints armed, or stops the cycle at a breakpoint for a while (`Sys.cycle` is an arbitrary
+function and the model has no path on which `execute_cycle` runs without the mutex).  The
+correspondence run therefore varies the debugger state of every resource (none / attached idle /
+breakpoint armed and never hit / breakpoint hit in every cycle and continued) and expects the
+same status lines from the model, which ignores that dimension. -/
 theorem c20_serialisable {S : Sys} {ls : List Label} {s : State}
     (h : run S (init S) ls = some s) :
     ∃ ls', ls'.Sublist ls ∧ arun S (init S) ls' = some (aview S s) := by
